@@ -184,3 +184,19 @@ mod tests {
         assert!(result.is_err());
     }
 }
+
+#[cfg(vibrato_verif)]
+impl ConnIdMapper {
+    /// Verification hook: the raw (old id -> new id) tables.
+    pub fn verif_tables(&self) -> (&[u16], &[u16]) {
+        (&self.left, &self.right)
+    }
+}
+
+#[cfg(vibrato_verif)]
+impl ConnIdCounter {
+    /// Verification hook: the raw counters (left ids, right ids).
+    pub fn verif_counts(&self) -> (&[usize], &[usize]) {
+        (&self.lid_count, &self.rid_count)
+    }
+}
